@@ -33,7 +33,7 @@ def cases(tier, seed):
         per = 11 if tier == "quick" else 4
         for i in range(0, len(shapes), per):
             out.append(dict(variant=v, shapes=shapes[i:i + per] + [(R.randrange(1, 700), R.randrange(1, 1400))], colour=R.choice([0, 0, 3, 4]),
-                            npts=300 if tier == "quick" else 20000, seed=R.randrange(1 << 30), toast=(i % 3 == 0)))
+                            npts=300 if tier == "quick" else 60000, seed=R.randrange(1 << 30), toast=(i % 3 == 0)))
     return out
 
 
